@@ -1,7 +1,84 @@
 import TLVerif.Codec.Ops.Common
-/-! TL2 ops (`codec.x2`, `codec.c12` …) — filled in by the TL2 model. -/
+import TLVerif.Codec.TL2
+/-! TL2 ops.
+* `codec.x2 <sid> <ty> <tlname> <boxed01> <tl1hex>`: read TL1, answer `ok w2=<TL2 bytes> w1b=<TL1 boxed>`
+* `codec.r2 <sid> <ty> <tlname> <tl2hex>`: read TL2, answer `ok <consumed> w2=<re-written TL2> w1b=<TL1 boxed of the result | n/a>`
+* `codec.g4 <sid> <ty> <tlname> <boxed01> <tl1hex>`: model only, evaluates the guard `noNegZero` of C04
+Types generated without TL2 answer `n/a`. -/
 namespace TLVerif.Codec
+open TLVerif.Util TLVerif.Prim
 
-def handleTL2 : OpHandler := fun _ _ _ => none
+def tyHasTL2 (d : Desc) (ty : Nat) : Bool :=
+  match d.get? ty with
+  | some (.struct s) => s.hasTL2
+  | some (.union u) => u.hasTL2
+  | _ => false
+
+def tyOriginTL2 (d : Desc) (ty : Nat) : Bool :=
+  match d.get? ty with
+  | some (.struct s) => s.originTL2
+  | some (.union u) =>
+    match u.variants with
+    | (vi, _) :: _ => (match d.get? vi with | some (.struct s) => s.originTL2 | _ => false)
+    | [] => false
+  | _ => false
+
+/-- constructor of an enum: the generated factory serves all of them by one generic object (`metainternal.TLItemImpl`)
+whose `WriteTL2` writes nothing and whose `ReadTL2` consumes nothing -/
+def isEnumElement (d : Desc) (ty : Nat) : Bool :=
+  d.insts.any (fun i => match i with
+    | .union u => u.isEnum && u.variants.any (fun v => v.1 == ty)
+    | _ => false)
+
+def writeTop (d : Desc) (fuel ty : Nat) (v : Val) : W2Out :=
+  if isEnumElement d ty then .ok [] else writeTL2Checked d fuel ty v
+
+def readTop (d : Desc) (fuel ty : Nat) (bs : Bytes) : RRes :=
+  if isEnumElement d ty then .ok (.struct [], bs) else readTL2 d fuel ty false bs
+
+def outW2 (r : W2Out) : String :=
+  match r with
+  | .ok b => hexOfBytes b
+  | .panic => "panic"
+  | .err .shape => "werr"
+  | .err e => "!" ++ errStr e
+
+def handleTL2 : OpHandler := fun st op args =>
+  match op, args with
+  | "x2", [sid, ty, _name, boxed, h] =>
+    match st.lookup sid, ty.toNat?, bytesOfHex h with
+    | some sc, some ty, some bs =>
+      let d := sc.desc
+      if !tyHasTL2 d ty then some "n/a" else
+      let fuel := fuelFor d bs.length
+      match readTL1 sc.cfg d fuel ty (boxed != "1") [] bs with
+      | .error e => some (errStr e)
+      | .ok (v, _) =>
+        let w1b := if hasBoxed d ty then outBytes (writeTL1 d fuel ty false [] v) else "n/a"
+        some s!"ok w2={outW2 (writeTop d fuel ty v)} w1b={w1b}"
+    | _, _, _ => some "bad-op"
+  | "r2", [sid, ty, _name, h] =>
+    match st.lookup sid, ty.toNat?, bytesOfHex h with
+    | some sc, some ty, some bs =>
+      let d := sc.desc
+      if !tyHasTL2 d ty then some "n/a" else
+      let fuel := fuelFor d bs.length
+      match readTop d fuel ty bs with
+      | .error e => some (errStr e)
+      | .ok (v, rest) =>
+        let w1b := if tyOriginTL2 d ty || !hasBoxed d ty then "n/a" else outBytes (writeTL1Z d fuel ty false [] v)
+        some s!"ok {bs.length - rest.length} w2={outW2 (writeTop d fuel ty v)} w1b={w1b}"
+    | _, _, _ => some "bad-op"
+  | "g4", [sid, ty, _name, boxed, h] =>
+    -- guard of C04 (model only): does the value decoded from these TL1 bytes avoid `-0.0` in "empty-test" positions?
+    match st.lookup sid, ty.toNat?, bytesOfHex h with
+    | some sc, some ty, some bs =>
+      let d := sc.desc
+      let fuel := fuelFor d bs.length
+      match readTL1 sc.cfg d fuel ty (boxed != "1") [] bs with
+      | .error e => some (errStr e)
+      | .ok (v, _) => some (if noNegZero d fuel ty false v then "guard 1" else "guard 0")
+    | _, _, _ => some "bad-op"
+  | _, _ => none
 
 end TLVerif.Codec
